@@ -688,6 +688,11 @@ static JanetSlot janetc_if(JanetFopts opts, int32_t argn, const Janet *argv) {
 
     /* Write jumps - only add jump lengths if jump actually emitted */
     labeld = janet_v_count(c->buffer);
+    /* The conditional jump has a 16 bit offset, the unconditional one 24 bits. */
+    if ((labelr - labeljr) > INT16_MAX || (labeld - labeljd) > 0x7FFFFF) {
+        janetc_cerror(c, "jump is too far");
+        return janetc_cslot(janet_wrap_nil());
+    }
     c->buffer[labeljr] |= (labelr - labeljr) << 16;
     if (!tail) c->buffer[labeljd] |= (labeld - labeljd) << 8;
 
@@ -929,6 +934,12 @@ static JanetSlot janetc_while(JanetFopts opts, int32_t argn, const Janet *argv) 
 
     /* Calculate jumps */
     labeld = janet_v_count(c->buffer);
+    /* The conditional jump out of the loop has a 16 bit offset, the jump back (and every break) 24 bits. */
+    if ((!infinite && (labeld - labelc) > INT16_MAX) || (labeljt - labelwt) > 0x7FFFFF) {
+        janetc_cerror(c, "jump is too far");
+        janetc_popscope(c);
+        return janetc_cslot(janet_wrap_nil());
+    }
     if (!infinite) c->buffer[labelc] |= (uint32_t)(labeld - labelc) << 16;
     c->buffer[labeljt] |= (uint32_t)(labelwt - labeljt) << 8;
 
